@@ -511,8 +511,8 @@ func numEqualsNumeral(numV reflect.Value, s string) bool {
 	if len(s) > 800 {
 		// strconv.ParseFloat keeps 800 digits and loses the scale of a longer
 		// integer part: round the exact value instead
-		if r, ok := new(big.Rat).SetString(s); ok {
-			f, _ = r.Float64()
+		if bf, _, err := big.ParseFloat(s, 10, uint(len(s))*4+64, big.ToNearestEven); err == nil {
+			f, _ = bf.Float64()
 			if math.IsInf(f, 0) {
 				// beyond the float64 range: no decimal numeral denotes an infinity
 				return false
